@@ -253,6 +253,8 @@ def impl_predicates(pid, op, impl):
     if "TAGGED-LABEL" in impl:
         iskey = op.startswith("dec key") or op.startswith("keyuse")
         hits.append(("C15" if iskey else "C05", "a decoder accepted a label that is a tagged item, not an integer or text"))
+        if not iskey:
+            hits.append(("C13", "a decoder accepted a label that is a tagged item, not an integer or text"))
     if "empty-signature-emitted" in impl:
         hits.append(("C20", "a structure with an empty signature was encoded"))
     if impl.startswith("nondet"):
@@ -273,6 +275,8 @@ def impl_predicates(pid, op, impl):
     if f and f[0] == "enc" and impl.startswith("ok") and "redec=ok" not in impl:
         # `!rt`: the generator built a value of the supported data model (binding even where the model is silent)
         hits.append(("C08" if f[-1] == "!rt" else "C08*", "encoder output refused by the corresponding decoder"))
+        if f[-1] == "!rt" and f[1] == "key":
+            hits.append(("C14", "a serialised COSE_Key with extra parameters is refused by the key decoder"))
     if f and f[0] == "reenc" and f[3] in ("clear", "trunc"):
         # C09: after discarding the retained raw bytes the re-encoding is a canonical form:
         # it decodes, and decoding / re-encoding it again changes nothing
